@@ -86,6 +86,47 @@ using namespace iora::network;
 using vh::Bytes;
 using Clock = std::chrono::steady_clock;
 
+// ---------------------------------------------------------------- handler gates (deterministic pool schedules)
+// A scripted handler with the action `gate` blocks until the gate named by the request's X-Gate header is opened: the op
+// script decides in which order the handlers of concurrently dispatched requests finish.
+struct Gates
+{
+  std::mutex m;
+  std::condition_variable cv;
+  std::set<long> open;
+  std::set<long> waiting;
+  bool openAll = false;
+  std::atomic<int> atGate{0};
+  void wait(long k)
+  {
+    std::unique_lock<std::mutex> g(m);
+    if (openAll || open.count(k) > 0) return;   // already open: never counted as parked (atGate must mean "blocked")
+    waiting.insert(k);
+    ++atGate;
+    cv.notify_all();
+    cv.wait(g, [&] { return openAll || open.count(k) > 0; });
+    waiting.erase(k);
+    --atGate;
+    cv.notify_all();
+  }
+  // opens gate k and, if a handler is parked there, waits until it has left the gate
+  void release(long k)
+  {
+    std::unique_lock<std::mutex> g(m);
+    open.insert(k);
+    cv.notify_all();
+    cv.wait_for(g, std::chrono::seconds(5), [&] { return waiting.count(k) == 0; });
+  }
+  void reset(bool all)
+  {
+    std::unique_lock<std::mutex> g(m);
+    openAll = all;
+    if (!all) open.clear();
+    cv.notify_all();
+  }
+};
+static Gates g_gates;
+
 // ---------------------------------------------------------------- scripted handlers
 struct Action
 {
@@ -127,6 +168,7 @@ static bool parseScript(const std::string& s, Script& out)
     else if ((a.op == "sup" || a.op == "thr" || a.op == "thx" || a.op == "echo") && p.size() == 1) {}
     else if (a.op == "big" && p.size() == 3) { try { a.n = std::stoll(p[1]); a.fill = static_cast<unsigned>(std::stoul(p[2])); } catch (...) { return false; } if (a.fill > 255) return false; }
     else if (a.op == "sleep" && p.size() == 2) { try { a.n = std::stoll(p[1]); } catch (...) { return false; } }
+    else if (a.op == "gate" && p.size() == 1) {}
     else return false;
     out.push_back(a);
   }
@@ -183,6 +225,7 @@ static void runScript(ScriptedServer& self, const Script& sc, const HttpServer::
     }
     else if (a.op == "big") res.set_content(std::string(static_cast<std::size_t>(a.n), static_cast<char>(a.fill)), "application/octet-stream");
     else if (a.op == "sleep") std::this_thread::sleep_for(std::chrono::milliseconds(a.n));
+    else if (a.op == "gate") g_gates.wait(std::atol(req.get_header_value("X-Gate").c_str()));
   }
   if (res._suppressSend) self.userSuppressed.store(true);
 }
@@ -293,6 +336,51 @@ struct Lock
   {
     std::lock_guard<std::mutex> g(s->_threadPool._mutex);
     return s->_threadPool._tasks.empty() && s->_threadPool._busyThreads.load() == 0;
+  }
+  // every worker that has taken a task is parked at a gate, and no task waits for a free worker that exists
+  bool poolQuiescent()
+  {
+    std::lock_guard<std::mutex> g(s->_threadPool._mutex);
+    std::size_t busy = s->_threadPool._busyThreads.load();
+    return (s->_threadPool._tasks.empty() || busy >= s->_threadPool._maxSize) && static_cast<std::size_t>(g_gates.atGate.load()) == busy;
+  }
+  bool waitQuiescent(int ms)
+  {
+    auto t0 = Clock::now();
+    int stable = 0;
+    while (stable < 3)
+    {
+      if (poolQuiescent()) ++stable; else stable = 0;
+      if (Clock::now() - t0 > std::chrono::milliseconds(ms)) return false;
+      std::this_thread::sleep_for(std::chrono::microseconds(150));
+    }
+    return true;
+  }
+  // the engine commands issued since the last call, in order, + the pool's queue / busy counts
+  std::string delta()
+  {
+    std::vector<Ev> e;
+    {
+      std::lock_guard<std::mutex> g(m);
+      e.swap(evs);
+    }
+    s->userSuppressed.store(false);
+    std::string o;
+    for (const auto& x : e)
+    {
+      if (!o.empty()) o += ";";
+      o += std::to_string(x.sid) + ":";
+      if (x.kind == 'X') o += "X";
+      else o += std::string(1, x.kind) + ":" + (x.data.size() >= 12 ? x.data.substr(9, 3) : std::string("???")) + ":" + std::to_string(x.data.size()) + ":" + hex16(fnv64(x.data, 0));
+    }
+    if (o.empty()) o = "-";
+    std::size_t queued, busy;
+    {
+      std::lock_guard<std::mutex> g(s->_threadPool._mutex);
+      queued = s->_threadPool._tasks.size();
+      busy = s->_threadPool._busyThreads.load();
+    }
+    return o + " | queued=" + std::to_string(queued) + " running=" + std::to_string(busy);
   }
   bool waitIdle(int ms)
   {
@@ -552,6 +640,47 @@ int main()
         }
         if (!idle) return "pool-not-idle";
         return L.outcome(sid);
+      }
+      if (t.size() == 3 && t[0] == "parr" && vh::parseNat(t[1], n) && vh::ofHex(t[2], d))
+      {
+        // one complete request arrives on session n through the real I/O-thread path; handlers park at their gates
+        SessionId sid = static_cast<SessionId>(n);
+        {
+          std::lock_guard<std::mutex> g(L.s->_sessionMutex);
+          L.s->_sessionInfo[sid];
+        }
+        L.s->handleIncomingData(sid, d.data(), d.size());
+        if (!L.waitQuiescent(5000)) return "pool-not-quiescent";
+        return L.delta();
+      }
+      if (t.size() == 2 && t[0] == "prel" && vh::parseNat(t[1], n))
+      {
+        g_gates.release(static_cast<long>(n));
+        if (!L.waitQuiescent(5000)) return "pool-not-quiescent";
+        return L.delta();
+      }
+      if (t.size() == 1 && t[0] == "pdrain")
+      {
+        // let every parked handler finish, one at a time, lowest gate first (deterministic)
+        for (int guard = 0; guard < 100000; ++guard)
+        {
+          long k = -1;
+          {
+            std::lock_guard<std::mutex> g(g_gates.m);
+            if (!g_gates.waiting.empty()) k = *g_gates.waiting.begin();
+          }
+          if (k < 0) break;
+          g_gates.release(k);
+          if (!L.waitQuiescent(5000)) return "pool-not-quiescent";
+        }
+        bool idle = L.waitIdle(10000);
+        g_gates.reset(false);
+        {
+          std::lock_guard<std::mutex> g(L.s->_sessionMutex);
+          L.s->_sessionInfo.clear();
+        }
+        if (!idle) return "pool-not-idle";
+        return L.delta();
       }
       if (t.size() == 2 && t[0] == "overflow" && vh::ofHex(t[1], d))
       {
